@@ -174,8 +174,3 @@ func cmdFunc(args []string) {
 		os.Exit(1)
 	}
 }
-
-func cmdCheck(args []string) {
-	fmt.Fprintln(os.Stderr, "check: not yet implemented")
-	os.Exit(2)
-}
